@@ -219,6 +219,10 @@ fn convert(p: &ParamValue<'_>) -> ConvRes {
 
 /// run PREPARE(n params) + one EXECUTE per parameter list, compare raw values and conversions
 fn run_execs(n: usize, execs: &[Vec<PSem>], st: &mut Stats) -> Result<(), Violation> {
+    run_execs_with(n, execs, 0, 1, None, st)
+}
+
+fn run_execs_with(n: usize, execs: &[Vec<PSem>], flags: u8, iterations: u32, hs: Option<u64>, st: &mut Stats) -> Result<(), Violation> {
     let mut cmds = vec![ClientCmd::new(with_byte(COM_STMT_PREPARE, format!("id=1 p={}", n).as_bytes()))];
     let mut expected = vec![auth_cb(), Cb::Prepare(format!("id=1 p={}", n))];
     let mut exp_conv: Vec<ConvRes> = Vec::new();
@@ -233,7 +237,7 @@ fn run_execs(n: usize, execs: &[Vec<PSem>], st: &mut Stats) -> Result<(), Violat
                 long: false,
             })
             .collect();
-        cmds.push(ClientCmd::new(cmd_execute(1, 0, 1, &exec_block(&ps, true))));
+        cmds.push(ClientCmd::new(cmd_execute(1, flags, iterations, &exec_block(&ps, true))));
         expected.push(Cb::Execute {
             id: 1,
             params: e.iter().map(|p| (p.ty(), p.expect_raw())).collect(),
@@ -241,7 +245,10 @@ fn run_execs(n: usize, execs: &[Vec<PSem>], st: &mut Stats) -> Result<(), Violat
         exp_conv.extend(e.iter().map(|p| p.expect_conv()));
     }
     cmds.push(ping());
-    let conv = Conv::new(cmds);
+    let mut conv = Conv::new(cmds);
+    if let Some(k) = hs {
+        conv.handshake = handshake_variant(k).0;
+    }
     let s = conv.stream();
     let stream = Arc::new(s.bytes);
     let mut sim = sim_for(&stream, vec![]);
@@ -546,6 +553,37 @@ impl Family for Rebinds {
     }
 }
 
+/// the flags byte and iteration count of COM_STMT_EXECUTE are not part of the parameter block:
+/// every flags value (cursor types, bits a later protocol revision assigns a meaning to only
+/// after negotiation) x iteration counts x handshake variants must leave the parameters alone
+struct ExecHeader;
+impl Family for ExecHeader {
+    fn name(&self) -> String {
+        "execute-flags-and-iteration-count".into()
+    }
+    fn len(&self) -> u64 {
+        256 * 4 * N_HANDSHAKE_VARIANTS
+    }
+    fn run(&self, idx: u64, st: &mut Stats) -> Result<(), Violation> {
+        let d = digits(idx, &[256, 4, N_HANDSHAKE_VARIANTS]);
+        let flags = d[0] as u8;
+        let iter = [0u32, 1, 2, u32::MAX][d[1] as usize];
+        st.nontrivial += 1;
+        st.bump("execute_header_cases");
+        let e1 = vec![PSem::Int { ty: 0x03, unsigned: false, v: 512 }, PSem::Null(0xfd)];
+        let e2 = vec![PSem::Int { ty: 0x08, unsigned: true, v: 3 }, PSem::Bytes(0xfd, b"second".to_vec())];
+        run_execs_with(2, &[e1, e2], flags, iter, Some(d[2]), st).map_err(|mut v| {
+            v.msg = format!("flags byte {:#04x}, iteration count {}, {}: {}", flags, iter, handshake_variant(d[2]).1, v.msg);
+            v
+        })
+    }
+    fn describe(&self, idx: u64) -> J {
+        let d = digits(idx, &[256, 4, N_HANDSHAKE_VARIANTS]);
+        let it = [0u32, 1, 2, u32::MAX][d[1] as usize];
+        json!({"flags_byte": d[0], "iteration_count": it, "handshake": handshake_variant(d[2]).1})
+    }
+}
+
 /// parameter counts and NULL bitmaps
 struct Bitmaps {
     max_all: usize,
@@ -668,6 +706,7 @@ pub fn build(quick: bool) -> Check {
             big: vec![63, 64, 65, 255, 256, 300],
         }),
         Box::new(AfterLongData),
+        Box::new(ExecHeader),
     ];
     if !quick {
         families.push(Box::new(Rebinds { mode: 3 }));
@@ -675,12 +714,12 @@ pub fn build(quick: bool) -> Check {
     Check {
         id: "C08",
         level: "model_checking",
-        rule: "COM_STMT_EXECUTE parameter blocks built from semantic values by the independent encoder and run through the real run_on; the shim records (type, raw inner value) and applies the documented Into<T> for the corresponding Rust type under catch_unwind. Domains: TINY, SHORT, YEAR exhaustive (signed and unsigned); LONG/INT24/LONGLONG over every 2^k, 2^k+-1 and the bounds; FLOAT/DOUBLE lattices incl. subnormals and infinities; byte strings of every length 0..300 and the length-class edges for all 14 string-like type codes, 65535..65537 (and around 2^24 in thorough); every legal length form of DATE/DATETIME/TIMESTAMP (0,4,7,11; DATE with a time part raw only) and TIME (0,8,12) over boundary calendar values, negative TIME raw only; all 25 type codes x unsigned in four position classes next to every other type; consecutive executions of one statement binding every ordered pair of (type, unsigned) tables (one parameter: all 50^2; two parameters: all 12^4 over the integer codes, thorough: all 50^4 over every code; triples 12^3), values with the top bit set; parameter counts 0..17, 63, 64, 65, 255, 256, 300 with all 2^n NULL bitmaps for n <= 12 (8 in quick) and structured ones above; inline executions that follow an execution fed by long data. Oracle: exactly n parameters, type = bound code, raw value = encoded value, conversion = encoded value (zero dates and negative TIME have no chrono/Duration form and are checked raw).".into(),
+        rule: "COM_STMT_EXECUTE parameter blocks built from semantic values by the independent encoder and run through the real run_on; the shim records (type, raw inner value) and applies the documented Into<T> for the corresponding Rust type under catch_unwind. Domains: TINY, SHORT, YEAR exhaustive (signed and unsigned); LONG/INT24/LONGLONG over every 2^k, 2^k+-1 and the bounds; FLOAT/DOUBLE lattices incl. subnormals and infinities; byte strings of every length 0..300 and the length-class edges for all 14 string-like type codes, 65535..65537 (and around 2^24 in thorough); every legal length form of DATE/DATETIME/TIMESTAMP (0,4,7,11; DATE with a time part raw only) and TIME (0,8,12) over boundary calendar values, negative TIME raw only; all 25 type codes x unsigned in four position classes next to every other type; consecutive executions of one statement binding every ordered pair of (type, unsigned) tables (one parameter: all 50^2; two parameters: all 12^4 over the integer codes, thorough: all 50^4 over every code; triples 12^3), values with the top bit set; parameter counts 0..17, 63, 64, 65, 255, 256, 300 with all 2^n NULL bitmaps for n <= 12 (8 in quick) and structured ones above; inline executions that follow an execution fed by long data; every value of the flags byte x iteration counts {0,1,2,2^32-1} x 5 handshake variants (among them one that mentions every capability the server did not offer). Oracle: exactly n parameters, type = bound code, raw value = encoded value, conversion = encoded value (zero dates and negative TIME have no chrono/Duration form and are checked raw).".into(),
         assumptions: vec!["wider integer, float and string domains are covered at lattices".into()],
         bounds: json!({"all_bitmaps_up_to_params": if quick {8} else {12}}),
         exhaustive: true,
         caps_hit: vec![],
         families,
-        required: vec!["rebinds_changing_only_flags", "values_bound", "microsecond_forms", "second_bitmap_byte", "after_long_data"],
+        required: vec!["execute_header_cases", "rebinds_changing_only_flags", "values_bound", "microsecond_forms", "second_bitmap_byte", "after_long_data"],
     }
 }
